@@ -14,6 +14,34 @@ F = gatetable.F
 NEEDS_APPROX = 'needs-approx'
 
 
+def approx_pmax(flat):
+    """largest probability the threshold form of approximate_disjoint_errors is compared against, or None when a PAULI_CHANNEL_1
+    with several components is present (whether it needs the approximation depends on a closed form)"""
+    pmax = 0.0
+    chain = []
+    for ins in flat + [None]:
+        nm = ins.name if ins is not None else None
+        if nm == 'ELSE_CORRELATED_ERROR':
+            chain.append(ins.args[0])
+            continue
+        if len(chain) > 1:
+            rem = 1.0
+            for p in chain:
+                pmax = max(pmax, p * rem)
+                rem *= 1 - p
+        chain = [ins.args[0]] if nm == 'E' else []
+        if nm is None:
+            break
+        a = ins.args
+        if nm == 'HERALDED_ERASE':
+            pmax = max(pmax, a[0])
+        elif nm in ('HERALDED_PAULI_CHANNEL_1', 'PAULI_CHANNEL_2') and sum(1 for p in a if p > 0) > 1:
+            pmax = max(pmax, max(a))
+        elif nm == 'PAULI_CHANNEL_1' and sum(1 for p in a if p > 0) > 1:
+            return None
+    return pmax
+
+
 def classify_channels(flat):
     """which noise instructions need approximate_disjoint_errors; which make the circuit unanalyzable"""
     need = False
@@ -161,8 +189,16 @@ def run(rep, tier):
         fold = rng.random() < 0.5
         allow_gauge = bool(gauge_rows) and rng.random() < 0.7
         approx = 1.0 if (need is True or (need == 'maybe' and rng.random() < 0.5)) and rng.random() < 0.85 else 0.0
+        # the threshold form: a probability above the threshold must be refused, otherwise the model is the approximate one
+        thr_reject = False
+        if need is True and approx == 1.0 and rng.random() < 0.4:
+            pm = approx_pmax(flat)
+            if pm is not None and 0 < pm < 1:
+                mode = rng.choice(['below', 'equal', 'above'])
+                approx = {'below': pm * 0.75, 'equal': pm, 'above': min(1.0, pm * 1.25)}[mode]
+                thr_reject = mode == 'below'
         try:
-            out = svh.request('analyze', [0, int(fold), int(allow_gauge), approx, 0, 0, 1], text)
+            out = svh.request('analyze', [0, int(fold), int(allow_gauge), repr(approx), 0, 0, 1], text)
         except core.Crash as e:
             rep.violation('ErrorAnalyzer::circuit_to_detector_error_model', 'crash', text, str(e) + e.stderr[-1200:])
             continue
@@ -171,7 +207,7 @@ def run(rep, tier):
         has_ms = any(ch.kind == 'flip' for ch in ir.channels)
         nontrivial = len(set(s for oc in channels for p, s in oc if s)) >= 2 and any(len(s) >= 2 for oc in channels for p, s in oc)
         rep.count(('c03', text, fold, allow_gauge, approx), nontrivial=nontrivial)
-        must_reject = reject or (bool(gauge_rows) and not allow_gauge) or obs_gauge or (need is True and approx == 0.0)
+        must_reject = reject or (bool(gauge_rows) and not allow_gauge) or obs_gauge or (need is True and approx == 0.0) or thr_reject
         if must_reject:
             if not err:
                 rep.violation('ErrorAnalyzer::circuit_to_detector_error_model', 'accept-invalid', {'circuit': text, 'options': opts},
@@ -181,7 +217,7 @@ def run(rep, tier):
         if err:
             if need == 'maybe' and approx == 0.0 and 'approximate_disjoint_errors' in out[-1]:
                 continue       # PAULI_CHANNEL_1 without a closed-form independent decomposition: documented rejection
-            if approx > 0 and 'threshold' in out[-1]:
+            if approx > 0 and 'threshold' in out[-1] and need is not True:
                 continue
             rep.violation('ErrorAnalyzer::circuit_to_detector_error_model', 'reject-valid', {'circuit': text, 'options': opts},
                           'valid annotated circuit rejected: ' + out[-1])
